@@ -88,10 +88,10 @@ def gen_configs(tier):
     cfgs += [
         # copies of an outstanding write under the same user_data, cancel by that user_data
         ("gen_dup", consts(Entries={4}, Kinds={"write", "cancel"}, LatChoices={1}, AllowDup=True, MaxOps=4 if not q else 3,
-                           MaxTicks=1, GenLen=7), 1),
+                           MaxTicks=1, GenLen=7 if q else 8), 1),
         # handles re-opened read-only / append-only, ring reads and writes on them
         ("gen_modes", consts(Entries={2}, Kinds={"write", "read"}, LatChoices={0}, CtlOps={"close", "open"},
-                             Modes={"ao", "ro"}, MaxOps=2, MaxTicks=1, GenLen=6 if q else 7), 0),
+                             Modes={"ao", "ro"}, MaxOps=2, MaxTicks=1, GenLen=7 if q else 8), 0),
     ]
     if not q:
         cfgs += [
@@ -292,7 +292,7 @@ def run(pid, tier, seed, replay=None):
     if tier == "thorough":
         # vacuity witnesses: each W_* invariant must be *violated* (the situation is reachable in the model)
         c = consts(Entries={1, 2}, LatChoices={0, 1}, CtlOps={"crash"}, MaxOps=2, MaxTicks=2, MaxCrash=1)
-        c = dict(c, AllowDup=True, MaxOps=3, Entries={4})
+        c = dict(c, AllowDup=True, MaxOps=3, Entries={1, 4})
         for wname in ["W_DupCancel", "W_CancelInflight", "W_CancelMissing", "W_FullPush", "W_LateDrain", "W_CrashLoses"]:
             cfg = vlib.cfg_text("Spec", c, invariants=[wname], view="View")
             r = vlib.run_tlc(SUB, "Uring", cfg, f"{pid}_{wname}", workers=4, timeout=600, heap="6g")
